@@ -331,7 +331,7 @@ def _oracle_dedup(inp, out):
 # --------------------------------------------------------------------------
 def _gen_batch(rng, quick):
     """rows with a chosen multiset of keys; returns list of row dicts with dense policies"""
-    n = rng.choice([1, 2, 3, 5, 8, 13, 20, 40]) if quick else rng.choice([1, 2, 5, 13, 40, 120, 400])
+    n = rng.choice([1, 2, 3, 5, 8, 13, 20, 40]) if quick else rng.choice([1, 2, 5, 13, 13, 40, 40, 120, 120, 400])
     w = rng.choice([1, 3, 5, 8, 12, 26]) if quick else rng.choice([1, 3, 8, 26, 41, 80])
     kpol = rng.choice([1, 2, 4, 6])
     style = rng.choice(["few-keys", "all-distinct", "all-same", "pairs", "prefix-keys", "random"])
@@ -499,8 +499,8 @@ def correspondence(run):
     import torch
     torch.set_num_threads(1)
     rng = run.rng
-    n_enc = 300 if run.quick else 5000
-    n_dedup = 500 if run.quick else 10000
+    n_enc = 300 if run.quick else 2500
+    n_dedup = 500 if run.quick else 4000
     n_pipe = 24 if run.quick else 300
     _dedup_batch()
     run.assumptions.append("dedup_batch obtained by: " + _dedup_cache["how"])
